@@ -39,4 +39,11 @@ def r4_end_to_end(run, tree):
     qs.check_constructor_stack(run, tree)
 
 
-RULES = [r1_table, r2_strict_conversion, r3_bool_dimensionless, r4_end_to_end]
+def r5_registry(run, tree):
+    run.rule("C07.R5", "'incompatible dimensions raise' rests on the one pint registry (shared with C08): cgs system, no context enabled, units parsed as written",
+             "D7 fold of units/units.py::Units on a recording registry", "", floor=4)
+    from .c08 import check_registry
+    check_registry(run, tree)
+
+
+RULES = [r1_table, r2_strict_conversion, r3_bool_dimensionless, r4_end_to_end, r5_registry]
